@@ -512,7 +512,9 @@ func (x *Exec) evalBuiltin(name string, e *ast.CallExpr, st *State) (Value, type
 		st.note = types.ExprString(e)
 		return intLit(0), nil
 	case "recover":
-		return x.fresh("recovered", SInt), x.typeOf(e)
+		rv := x.fresh("recovered", SInt)
+		st.names["recoverResult"] = rv
+		return rv, x.typeOf(e)
 	case "copy":
 		dv, dt := x.eval(e.Args[0], st)
 		sv, _ := x.eval(e.Args[1], st)
